@@ -12,6 +12,7 @@ func main() {
 	verifio.Main(map[string]verifio.Runner{
 		"files": func(f []string) string { return configs.VerifFiles(verifio.KV(f)) },
 		"sec":   func(f []string) string { return configs.VerifSecrets(verifio.KV(f)) },
+		"det":   func(f []string) string { return configs.VerifDet(verifio.KV(f)) },
 		"rel":   func(f []string) string { return configs.VerifReload(verifio.KV(f)) },
 	})
 }
